@@ -124,7 +124,7 @@ def run(ctx):
         trans, nontriv = graph_stage(ctx, binary, ALL_TYPES, maxts=1, exps=(1,), valbound=1, label="quick",
                                      wide=("Int",), random_walks=60)
         consts = {"tuples": 3, "tuples_for_non_Int_types": 2, "bad_tuples": 2, "MaxTs": 1, "Expiries": [1], "ValBound": 1}
-    wsteps = walk_stage(ctx, binary, 200, 80) if ctx.thorough else 0
+    wsteps = walk_stage(ctx, binary, 100, 80) if ctx.thorough else 0
     if ctx.thorough:
         # model only: two expiry values as well; and once with coverage: no action may be vacuous
         mc = mm.mc_module(TUPLES, BAD, expiries=(1, 2), vtypes=("Int", "Buckets"))
